@@ -33,6 +33,8 @@ fn table() -> Vec<(&'static str, Options, Option<Value>)> {
         ("1+", base().with_leading_digit_symbols(true), sy("1+")), ("1-", Options::elisp(), sy("1-")), ("1/2", base().with_leading_digit_symbols(true), sy("1/2")), ("1.5.6", base().with_leading_digit_symbols(true), sy("1.5.6")),
         ("0x10", base().with_leading_digit_symbols(true), sy("0x10")), ("12e", base().with_leading_digit_symbols(true), sy("12e")),
         ("[a . b]", base(), Some(Value::cons(Value::symbol("a"), Value::symbol("b")))), ("[a b . c]", base(), Some(Value::append(vec![Value::symbol("a"), Value::symbol("b")], Value::symbol("c")))),
+        ("[a +]", base(), Some(Value::list(vec![Value::symbol("a"), Value::symbol("+")]))), ("[a -]", Options::elisp(), Some(Value::Vector(vec![Value::symbol("a"), Value::symbol("-")].into()))),
+        ("(a .;c\n b)", base(), Some(Value::cons(Value::symbol("a"), Value::symbol("b")))), ("(a -;c\n)", base(), Some(Value::list(vec![Value::symbol("a"), Value::symbol("-")]))),
         ("k:", base(), sy("k:")), ("k:", base().with_keyword_syntax(KeywordSyntax::ColonPostfix), kw("k")),
         ("nil:", base().with_keyword_syntax(KeywordSyntax::ColonPostfix).with_nil_symbol(NilSymbol::Special), kw("nil")),
         ("#:k", base(), None), ("#:k", base().with_keyword_syntax(KeywordSyntax::Octothorpe), kw("k")),
